@@ -199,6 +199,15 @@ func VerifyFunc(prog *Program, fi *FuncInfo, tier string) (res *UnitResult) {
 			}
 		}
 	}
+	// axioms about external libraries stated in this package's contract file (assumed, reported)
+	for _, ax := range prog.CS.Axioms {
+		if prog.CS.Files[fi.Pkg.Name] != ax.File && prog.CS.Files[shortPkg(fi.Pkg.PkgPath)] != ax.File {
+			continue
+		}
+		g := u.evalClause(ax, st, u.entry, nil, u.entryBindings(nil))
+		u.reg.axiom(g)
+		u.reg.note("assumed axiom: " + ax.Text)
+	}
 	// preconditions
 	if u.con != nil {
 		for _, c := range u.con.Requires {
